@@ -12,9 +12,8 @@ use std::collections::BTreeMap;
 pub const MAX_LEVEL: usize = 4;
 
 pub fn run(tier: Tier, replay_file: Option<&str>) -> i32 {
-    if replay_file.is_some() {
-        eprintln!("C16 replay: re-run the check (cases are identified by fingerprint + policy text in the replay file)");
-        return 2;
+    if let Some(p) = replay_file {
+        return replay_by_rerun("C16", p, || run(Tier::Quick, None));
     }
     let ctx = Ctx::new("C16", tier);
     quiet_panics();
